@@ -405,11 +405,14 @@ Print Assumptions C20_entry_list_on_the_rule_slice_refuted.
    is: gs is arbitrary, so a value that begins or ends with a backslash, contains braces,
    escapes or whole placeholders is not trimmed, unescaped or scanned (only the literal text of
    the FORMAT loses its brace escapes and, a quirk of the code that the model reproduces, one
-   leading backslash per literal); the tail holds no further complete unescaped placeholder. *)
+   leading backslash per literal); the tail holds no further complete unescaped placeholder.  The decomposition is the
+   LEFTMOST one (leftmost_piece): every opening brace inside a literal is escaped (preceded by a
+   backslash), and the closing brace that ends a placeholder is the first unescaped one after its
+   opening brace - no placeholder occurrence is skipped, none is read twice. *)
 Theorem C20_replace_scan_decomposition :
   forall (gs : bytes -> bytes) (fmt : bytes),
   exists ps tail,
-    fmt = pieces_cat ps ++ tail /\ Forall (fun p => braced (snd p)) ps /\
+    fmt = pieces_cat ps ++ tail /\ Forall leftmost_piece ps /\
     (has_brace fmt = true -> scan_step tail = Ok None) /\
     template fmt = Ok (pieces_template ps tail) /\
     expand gs fmt = Ok (pieces_out gs ps tail).
